@@ -323,6 +323,44 @@ def run(ck: Check) -> None:
             ck.nontrivial_add((proto.enc(env)[:200], tuple(ops)))
         if len(ck.samples) < 5:
             ck.samples.append({"ops": ops, "signers": len(ks)})
+    # files of every size of interest (buffer / block boundaries, incl. those the current source names) and names with suffixes that other tools attach a
+    # meaning to (.bz2, .gz, .zip, .zst, .tmp, .bak): what is written is the canonical serialization — exactly once, uncompressed, under the name given
+    for nbytes in gen.sizes_of_interest():
+        v_ = gen.sized_payload(nbytes)
+        fn2 = os.path.join(d, "sized.json")
+        ck.evaluations += 1
+        ck.oracle_checks += 1
+        ck.count("sized-file")
+        try:
+            impl.common.write_metadata_to_file(v_, fn2)
+            got_b = open(fn2, "rb").read()
+            back = impl.common.load_metadata_from_file(fn2)
+        except Exception as e:  # noqa: BLE001
+            ck.violation("a file operation on a well-formed JSON value failed", {"canonical_size": nbytes, "error": repr(e)[:200]}, f"fileop-failed:sized:{type(e).__name__}")
+            continue
+        if got_b != gen.oracle_bytes(v_) or not proto.deep_equal(back, v_):
+            ck.violation("a value whose canonical serialization has a particular size is not stored as exactly that serialization / does not load back",
+                         {"canonical_size": len(gen.oracle_bytes(v_)), "file_size": len(got_b)}, "sized-file")
+            break
+    for suffix in (".json.bz2", ".json.gz", ".gz", ".bz2", ".zip", ".zst", ".xz", ".tmp", ".bak", ".json.partial", ".JSON", ""):
+        fn2 = os.path.join(d, "named" + suffix)
+        v_ = gen.envelope({"suffix": suffix, "n": [1, 2]})
+        ck.evaluations += 1
+        ck.oracle_checks += 1
+        ck.count("suffixed-file")
+        try:
+            impl.common.write_metadata_to_file(v_, fn2)
+            got_b = open(fn2, "rb").read()
+            back = impl.common.load_metadata_from_file(fn2)
+            with open(fn2, "wb") as f:          # and a plain canonical file under such a name loads as what it is
+                f.write(gen.oracle_bytes(v_))
+            back2 = impl.common.load_metadata_from_file(fn2)
+        except Exception as e:  # noqa: BLE001
+            ck.violation("a file operation on a well-formed JSON value failed", {"name_suffix": suffix, "error": repr(e)[:200]}, f"fileop-failed:suffix:{type(e).__name__}")
+            continue
+        if got_b != gen.oracle_bytes(v_) or not proto.deep_equal(back, v_) or not proto.deep_equal(back2, v_):
+            ck.violation("under a file name with a particular suffix the file written is not the canonical serialization (or does not load back)",
+                         {"name_suffix": suffix, "file_head": got_b[:16].hex()}, "suffixed-file")
     # histories over several named files against the file-system model (Model/Files.lean: writeMd / loadMd / signFile; driver op `fsops`): foreign content planted
     # or files removed between the library's operations, values written, files loaded, envelopes signed in place — every operation's result and, at the end,
     # every file's bytes are compared (theorems write_over_anything, write_frame, write_then_load, signFile_frame speak about exactly these operations)
@@ -423,7 +461,8 @@ def run(ck: Check) -> None:
             if len(ck.mismatches) < 10:
                 ck.mismatches.append({"corr": "corr:file-histories/results+final-contents", "line": ln[:1500], "impl": bad, "model": ans[:300], "tag": "file-history", "meta": {}, "stdout_encoding": "utf-8"})
     # any JSON value survives write + load, not only envelopes: top-level strings (also ones that look like JSON text), numbers, arrays, null
-    for v in ["123", "null", '{"a": 1}', "\u00e9", "", " ", '"quoted"', "[1, 2]", 5, -1, 1.5, True, None, [1, "a"], [], {}, "x" * 70, "\ud800", gen.rand_json(rng, 3, [10])]:
+    for v in ["123", "null", '{"a": 1}', "\u00e9", "", " ", '"quoted"', "[1, 2]", 5, -1, 1.5, True, None, [1, "a"], [], {}, "x" * 70, "\ud800", gen.rand_json(rng, 3, [10]),
+              "[" * 1500, {"note": "{" * 2500, "list": ["[{" * 600]}, {"signatures": {}, "signed": {"description": "]" * 1200 + "[" * 1300}}, "2.5\" drives // see https://example.org"]:
         try:
             impl.common.write_metadata_to_file(v, fn)
             b = open(fn, "rb").read()
